@@ -229,10 +229,38 @@ pub fn miri_cmd(verif: &str, miriflags: &str, count: u64, sim: &str) -> Command 
 pub const MIRI_BASE_FLAGS: &str = "-Zmiri-disable-stacked-borrows";
 
 /// Second engine: the same scenario shapes under Miri, many seeds (run in parallel by Miri).
-fn miri_engine(verif: &str, sim: &str, first_seed: u64, seeds: u64, count: u64) -> MiriOutcome {
+fn miri_engine(verif: &str, sim: &str, first_seed: u64, seeds: u64, count: u64, max_secs: u64) -> MiriOutcome {
     let t0 = Instant::now();
     let flags = format!("{} -Zmiri-many-seeds={}..{}", MIRI_BASE_FLAGS, first_seed, first_seed + seeds);
-    let out = miri_cmd(verif, &flags, count, sim).output();
+    // watchdog: the interpreter must not be able to hang the check
+    let out = (|| -> std::io::Result<std::process::Output> {
+        let mut cmd = miri_cmd(verif, &flags, count, sim);
+        cmd.stdout(Stdio::piped()).stderr(Stdio::piped());
+        unsafe {
+            use std::os::unix::process::CommandExt;
+            cmd.pre_exec(|| {
+                libc::setsid();
+                Ok(())
+            });
+        }
+        let child = cmd.spawn()?;
+        let pid = child.id() as i32;
+        let done = std::sync::Arc::new(std::sync::atomic::AtomicBool::new(false));
+        let d2 = done.clone();
+        std::thread::spawn(move || {
+            let t = Instant::now();
+            while t.elapsed().as_secs() < max_secs {
+                if d2.load(std::sync::atomic::Ordering::SeqCst) {
+                    return;
+                }
+                std::thread::sleep(std::time::Duration::from_millis(500));
+            }
+            unsafe { libc::kill(-pid, libc::SIGKILL) };
+        });
+        let out = child.wait_with_output();
+        done.store(true, std::sync::atomic::Ordering::SeqCst);
+        out
+    })();
     let mut o = MiriOutcome { seeds, first_seed, scenarios_ok: 0, wall_s: 0.0, failing_seed: None, error_excerpt: vec![], harness_error: None };
     match out {
         Err(e) => o.harness_error = Some(format!("cannot run cargo miri: {}", e)),
@@ -242,7 +270,9 @@ fn miri_engine(verif: &str, sim: &str, first_seed: u64, seeds: u64, count: u64) 
             o.scenarios_ok = so.lines().filter(|l| l.starts_with("MIRI-OK")).count() as u64;
             let all = format!("{}\n{}", so, se);
             let failed = !out.status.success();
-            if failed {
+            if failed && t0.elapsed().as_secs() >= max_secs {
+                o.harness_error = Some(format!("the Miri engine was stopped after {} s ({} scenario executions had finished cleanly)", max_secs, o.scenarios_ok));
+            } else if failed {
                 for l in all.lines() {
                     let low = l.to_lowercase();
                     if let Some(i) = low.find("failing seed:") {
@@ -471,7 +501,7 @@ pub fn main(args: &[String]) -> i32 {
         let m = if seeds == 0 {
             MiriOutcome { seeds: 0, first_seed: first, scenarios_ok: 0, wall_s: 0.0, failing_seed: None, error_excerpt: vec![], harness_error: None }
         } else {
-            miri_engine(&verif, msim, first, seeds, count)
+            miri_engine(&verif, msim, first, seeds, count, if tier == "thorough" { 7200 } else { 1200 })
         };
         println!("miri engine: seeds {}..{} scenarios_ok={} wall={:.1}s failing_seed={:?}", first, first + seeds, m.scenarios_ok, m.wall_s, m.failing_seed);
         if let Some(e) = &m.harness_error {
